@@ -65,6 +65,7 @@ func copiedFrom(v ssa.Value, pred func(src ssa.Value) bool) bool {
 func ruleR3_5(w *World, r *Report) {
 	r.Rule("R3.5", "every optimisation loop of Solver adds, after a model of cost c, the constraint `negated cost literals weigh at least maxCost - c + 1`, where c counts exactly the cost literals true in the model (1 or their weight each) and maxCost is the total weight (or the number of cost literals), and stops when c == 0", 2)
 	npb := w.Func("solver", "NewPBClause")
+	ncc := w.Func("solver", "NewCardClause") // the same constraint with every weight 1
 	app := w.Func("solver", "Solver.AppendClause")
 	if npb == nil || app == nil {
 		r.Unk("R3.5", "anchors", "-", "solver.NewPBClause or Solver.AppendClause not found")
@@ -96,7 +97,7 @@ func ruleR3_5(w *World, r *Report) {
 		}
 		for _, ci := range callsIn(fn) {
 			c, ok := ci.(*ssa.Call)
-			if !ok || !w.staticCalleeIs(c, npb) {
+			if !ok || !(w.staticCalleeIs(c, npb) || (ncc != nil && w.staticCalleeIs(c, ncc))) {
 				continue
 			}
 			feeds := false
@@ -127,6 +128,10 @@ func ruleR3_5(w *World, r *Report) {
 	_ = one
 	for _, cx := range ctxs {
 		name := w.FuncName(cx.loopFn)
+		cardForm := ncc != nil && w.staticCalleeIs(cx.np, ncc)
+		if cardForm {
+			name += " (cardinality form)"
+		}
 		resolve := func(v ssa.Value) ssa.Value {
 			if cx.caller == nil {
 				return v
@@ -140,7 +145,7 @@ func ruleR3_5(w *World, r *Report) {
 			return v
 		}
 		// degree: linear form in fn, parameters substituted by the caller's arguments
-		deg := lfOf(cx.np.Call.Args[2], 0)
+		deg := lfOf(cx.np.Call.Args[len(cx.np.Call.Args)-1], 0)
 		valsF, valsG := valueByName(cx.fn), valueByName(cx.loopFn)
 		final := linForm{c: deg.c, terms: map[string]int64{}}
 		atomVal := map[string]ssa.Value{}
@@ -456,32 +461,60 @@ func ruleR3_5(w *World, r *Report) {
 			if !copiedFrom(cx.np.Call.Args[0], srcIs(func(s ssa.Value) bool { return isFieldLoadOf(s, "hypothesis") })) {
 				bad = append(bad, "the literals of the constraint are not a private copy of the hypothesis (the constructor sorts them in place)")
 			}
-			if !copiedFrom(cx.np.Call.Args[1], srcIs(func(s ssa.Value) bool {
-				return copiedFrom(s, func(s2 ssa.Value) bool { return isFieldLoadOf(s2, "minWeights") })
+			if cardForm {
+				// no weights: sound only where the cost function has none
+				unweighted := false
+				for _, ec := range dominatingConds(cx.np.Block()) {
+					if bo, ok := ec.Cond.(*ssa.BinOp); ok && (bo.Op == token.EQL || bo.Op == token.NEQ) && isFieldLoadOf(bo.X, "minWeights") && isNilConst(bo.Y) && (bo.Op == token.EQL) == ec.True {
+						unweighted = true
+					}
+				}
+				if !unweighted {
+					bad = append(bad, "a cardinality constraint (every weight 1) is added on a path where the cost function may have weights")
+				}
+			} else if !copiedFrom(cx.np.Call.Args[1], srcIs(func(s ssa.Value) bool {
+				// the sorted weight list may be built by a helper of the loop (`weights := s.initHypothesis()`): every
+				// value it returns must be such a copy
+				leaves := w.resultLeaves(s)
+				for _, l := range leaves {
+					if !copiedFrom(l, func(s2 ssa.Value) bool { return isFieldLoadOf(s2, "minWeights") }) {
+						return false
+					}
+				}
+				return len(leaves) > 0
 			})) {
 				bad = append(bad, "the weights of the constraint are not a private copy of (a copy of) the cost weights")
 			}
 			neg := false
-			allInstrs(cx.loopFn, func(ins ssa.Instruction) {
-				st, ok := ins.(*ssa.Store)
-				if !ok {
-					return
+			// the hypothesis is filled in the loop function or in a solver helper it calls before the loop
+			negFns := []*ssa.Function{cx.loopFn}
+			for g := range w.Reachable(cx.loopFn) {
+				if g != cx.loopFn && w.PkgName(g) == "solver" {
+					negFns = append(negFns, g)
 				}
-				ia, ok := st.Addr.(*ssa.IndexAddr)
-				if !ok || !isFieldLoadOf(ia.X, "hypothesis") {
-					return
-				}
-				c, ok := st.Val.(*ssa.Call)
-				if !ok || w.calleeName(&c.Call) != "(solver.Lit).Negation" {
-					return
-				}
-				idx, ok := elemOfField(c.Call.Args[0], "minLits")
-				if ok && idx == ia.Index && fullRangeIndex(idx, func(b ssa.Value) bool {
-					return isLenOf(b, func(x ssa.Value) bool { return isFieldLoadOf(x, "minLits") })
-				}) {
-					neg = true
-				}
-			})
+			}
+			for _, nf := range negFns {
+				allInstrs(nf, func(ins ssa.Instruction) {
+					st, ok := ins.(*ssa.Store)
+					if !ok {
+						return
+					}
+					ia, ok := st.Addr.(*ssa.IndexAddr)
+					if !ok || !isFieldLoadOf(ia.X, "hypothesis") {
+						return
+					}
+					c, ok := st.Val.(*ssa.Call)
+					if !ok || w.calleeName(&c.Call) != "(solver.Lit).Negation" {
+						return
+					}
+					idx, ok := elemOfField(c.Call.Args[0], "minLits")
+					if ok && idx == ia.Index && fullRangeIndex(idx, func(b ssa.Value) bool {
+						return isLenOf(b, func(x ssa.Value) bool { return isFieldLoadOf(x, "minLits") })
+					}) {
+						neg = true
+					}
+				})
+			}
 			if !neg {
 				bad = append(bad, "the hypothesis is not the negation of every cost literal")
 			}
